@@ -11,7 +11,7 @@
 (* TLC checks that for every type/value of the bounded universe, every garbage pattern in the buffer and every   *)
 (* capacity around the needed one, the machine ends with exactly Ser(t, v) in the first size bytes, touches      *)
 (* nothing beyond the capacity, and refuses a too-small buffer before touching it (refinement I => P).          *)
-EXTENDS DsdlWire, TLC
+EXTENDS DsdlWire, TLC, Json
 
 CONSTANTS Little,      \* target_endianness = little (enables memmove / zero-cost paths)
           Level,
@@ -158,6 +158,36 @@ BodyInstr(t, v, R, nested) ==
 
 Program(t, v) == BodyInstr(t, v, {0}, FALSE)
 
+
+(* ------------------------------------------------ structural plan (drift binding) ------------------------------------------------ *)
+(* Which write path the templates choose for every top-level field of a type, in textual order of the generated serializer: the      *)
+(* harness extracts the same sequence from the generated C text; a difference means this I-layer no longer mirrors the templates     *)
+(* (a drift NOTE, never a verdict: the property is judged on P).                                                                    *)
+ZeroVal(t) == IF t.k \in {"uint", "int"} THEN BytesOfBits(Zeros(SW(t.w))) ELSE IF t.k = "bool" THEN <<0>> ELSE IF t.k = "float" THEN <<0, 0, 0, 0>> ELSE <<>>
+OpName(i) == IF i.op = "move" /\ \A j \in 1..Len(i.bytes) : i.bytes[j] = 0 /\ i.w # 32 /\ i.w > 16 THEN "move" ELSE i.op
+RECURSIVE PlanOf(_, _)
+PlanOf(t, R) ==
+    IF IsPrim(t) THEN <<PrimInstr(t, ZeroVal(t), R)[1].op>>
+    ELSE IF t.k \in {"farr", "varr"} THEN
+        LET e == t.e
+            pre == IF t.k = "varr" THEN <<PrimInstr(Uint(LenW(t), TRUE), BytesOfBits(Zeros(LenW(t))), R)[1].op>> ELSE <<>>
+            Re == IF t.k = "varr" THEN Shift(R, LenW(t)) ELSE R
+            cap == IF t.k = "farr" THEN t.n ELSE t.cap
+            Rel == UNION {Shift(Re, c * MaxBitsField(e)) : c \in 0..(IF cap = 0 THEN 0 ELSE cap - 1)}
+        IN pre \o (IF e.k = "bool" \/ (IsPrim(e) /\ ZeroCost(e)) \/ (IsPrim(e) /\ e.w = 8 /\ e.k \in {"uint", "int"} /\ Little) THEN <<"bits">>
+                   ELSE PlanOf(e, IF IsComposite(e) THEN {0} ELSE Rel))
+    ELSE LET fixed == MinBitsBody(t) = MaxBitsBody(t)
+         IN IF t.sealed THEN <<"call">>
+            ELSE IF fixed THEN <<PrimInstr(Uint(32, TRUE), BytesOfBits(Zeros(32)), {0})[1].op, "call">>
+            ELSE <<"call", IF Little THEN "move" ELSE "bits">>
+RECURSIVE PlanFields(_, _, _, _)
+PlanFields(fs, i, R, acc) ==
+    IF i > Len(fs) THEN acc
+    ELSE LET f == fs[i]
+             Rp == IF Align(f) = 8 THEN {0} ELSE R
+         IN PlanFields(fs, i + 1, AfterField(f, Rp), Append(acc, PlanOf(f, Rp)))
+Plan(t) == PlanFields(t.fields, 1, {0}, <<>>)
+
 (* ------------------------------------------------ the machine ------------------------------------------------ *)
 VARIABLES ti, vi, cap, garbage,                \* stimulus
           prog,                                \* the instruction sequence the templates emit for (type, value): fixed at PickCase
@@ -239,4 +269,6 @@ Refines ==
 (* nothing beyond the capacity is ever written, the cursor never passes it *)
 StaysInside == vi # 0 => (/\ \A i \in (cap + 1)..Len(buf) : buf[i] = garbage
                           /\ (rc = "none" /\ pc >= 1) => off <= 8 * cap)
+OnlyTypes == vi = 0          \* the plan is a property of the type: do not expand values
+EmitPlan == (ti # 0 /\ vi = 0) => PrintT(ToJson([ti |-> ti, t |-> Types[ti], plan |-> Plan(Types[ti]), little |-> Little]))
 =============================================================================
